@@ -68,6 +68,13 @@ func (b *buffer) get(v wireType) {
 		b.err = ErrMissingData
 		return
 	}
+	// bindata.UnmarshalBinary leaves its receiver untouched for a zero
+	// length, start from empty so the width below is that of the
+	// decoded value and not of a value decoded earlier (repeated
+	// property)
+	if bd, ok := v.(*bindata); ok {
+		*bd = nil
+	}
 	if b.err = v.UnmarshalBinary(b.data[b.i:]); b.err != nil {
 		return
 	}
